@@ -95,7 +95,15 @@ func newUniverseNamed(repos, tags []string) *universe {
 	mtrail := uniManifest{"mi-trailing-garbage", mtImage, append(append([]byte(nil), mi.Data...), "}{"...)}
 	// a legal but non-canonical media type: mixed case and a parameter
 	mparam := uniManifest{"mparam", "application/vnd.Example.Thing.v1+json; version=2", []byte(`{"p":1}`)}
-	u.Manifests = []uniManifest{mo, mi, mis, mx, mxb, mbad, mmiss, mzero, miOpaque, mtrail, mparam}
+	// an index that lists mi and also names mi as its subject: one digest in two roles
+	miDesc := descOf(mtImage, mi.Data)
+	mxs := uniManifest{"mxs", mtIndex, mustJSON(struct {
+		SchemaVersion int                      `json:"schemaVersion"`
+		MediaType     string                   `json:"mediaType"`
+		Manifests     []ociregistry.Descriptor `json:"manifests"`
+		Subject       *ociregistry.Descriptor  `json:"subject"`
+	}{2, mtIndex, []ociregistry.Descriptor{miDesc}, &miDesc})}
+	u.Manifests = []uniManifest{mo, mi, mis, mx, mxb, mbad, mmiss, mzero, miOpaque, mtrail, mparam, mxs}
 	return u
 }
 
@@ -152,9 +160,14 @@ func (o Op) String() string {
 		if o.Bad != "" {
 			return fmt.Sprintf("Commit(h%d,wrong-digest)", o.H)
 		}
+		if o.Off == "recommit" {
+			return fmt.Sprintf("Commit(h%d,digest-of-the-first-commit-again)", o.H)
+		}
 		return fmt.Sprintf("Commit(h%d)", o.H)
 	case "Cancel":
 		return fmt.Sprintf("Cancel(h%d)", o.H)
+	case "Reads":
+		return "Reads(every query of the sweep)"
 	}
 	return o.K
 }
@@ -169,6 +182,8 @@ func opsText(h []Op) []string {
 
 // alphabetConfig selects which operation families are enumerated.
 type alphabetConfig struct {
+	ReadsOp bool // "Reads": every read of the sweep performed as an operation of the history (replayed like the
+	// others), so that state built up by reading - a cache, a lazily computed field - is carried into later states
 	AltBlobMT   bool // also push blobs under a second media type (Op.Piece == "alt"); direct stacks only: HTTP does not carry a blob's media type
 	Repos       []string
 	BadRepo     bool // include an invalid repository name
@@ -210,6 +225,9 @@ func (u *universe) staticOps(c alphabetConfig) []Op {
 			}
 			ops = append(ops, Op{K: "PushBlob", Repo: repos[0], B: b, Bad: "digest"}, Op{K: "PushBlob", Repo: repos[0], B: b, Bad: "size"})
 		}
+	}
+	if c.ReadsOp {
+		ops = append(ops, Op{K: "Reads"})
 	}
 	if c.BadRepo {
 		ops = append(ops, Op{K: "PushBlob", Repo: "R!", B: 1}, Op{K: "PushManifest", Repo: "R!", M: 0, Tag: "t"}, Op{K: "Start", Repo: "R!"})
